@@ -441,6 +441,10 @@ def _thr_spec(rng, n_labels, lo, hi, multi_p, edge=None):
         vals[rng.randrange(len(vals))] = edge  # a legal extreme threshold (IoU 0.0: any overlap counts; distance inf: any distance)
         vals = sorted(set(vals))
         n_thr = len(vals)
+    if edge == 0.0 and rng.random() < 0.1:
+        vals[-1] = 1.0                          # the other legal extreme of an IoU threshold: nothing short of identity counts
+        vals = sorted(set(vals))
+        n_thr = len(vals)
     if rng.random() < 0.3:
         rng.shuffle(vals)
     if rng.random() < 0.1:
@@ -464,6 +468,8 @@ def _range_spec(rng, n_labels, scale):
         return {"kind": "xy", "max_x": [one() for _ in range(n_labels)], "max_y": [one() for _ in range(n_labels)]}
     mx = _r(rng.uniform(0.4, 1.5) * scale, 2)
     mn = rng.choice([0.0, 0.0, _r(rng.uniform(0.5, 0.3 * scale), 2)])
+    if rng.random() < 0.12:
+        mn = rng.choice([-1.0, -0.01, _r(-rng.uniform(0.5, 5.0), 2)])   # "no lower bound", written as a negative distance
     if rng.random() < 0.5:
         return {"kind": "dist", "max": mx, "min": mn}
     return {"kind": "dist", "max": [_r(mx * rng.uniform(0.6, 1.2), 2) for _ in range(n_labels)], "min": mn}
@@ -508,7 +514,7 @@ def _crit_spec_inner(rng, cfg, scale, narrow):
         rg = {
             "kind": "dist",
             "max": [_r(scale * f * rng.uniform(0.7, 1.3), 2) for _ in range(n)],
-            "min": [rng.choice([0.0, 0.0, _r(rng.uniform(0.5, 0.25 * scale), 2)]) for _ in range(n)],
+            "min": [rng.choice([0.0, 0.0, _r(rng.uniform(0.5, 0.25 * scale), 2), -1.0 if rng.random() < 0.3 else 0.0]) for _ in range(n)],
         }
     spec = {"labels": labels, "range": rg}
     if extra_label:
@@ -538,7 +544,7 @@ def _pf_spec(rng, cfg, factor=1.0):
         return {"labels": labels, "thr": None}
     if cfg.get("dim") == 2:
         # 2D pass/fail is judged on IoU: thresholds in [0, 1), larger is stricter
-        return {"labels": labels, "thr": [rng.choice([0.0, 0.5]) if rng.random() < 0.1 else _r(rng.uniform(0.02, 0.95), 3) for _ in labels]}
+        return {"labels": labels, "thr": [rng.choice([0.0, 0.5, 1.0]) if rng.random() < 0.12 else _r(rng.uniform(0.02, 0.95), 3) for _ in labels]}
     if rng.random() < 0.06:
         # "no target labels" = every label of the family, one threshold each (9 autoware labels)
         return {"labels": None, "thr": [_r(rng.uniform(0.4, 4.0) * factor, 3) for _ in range(9)]}
